@@ -11,11 +11,15 @@ pub mod c06;
 pub mod c07;
 pub mod c08;
 pub mod c09;
+pub mod c11;
 pub mod c12;
+pub mod c13;
 pub mod c14;
 pub mod c15;
 pub mod c16;
 pub mod c18;
+pub mod c19;
+pub mod c20;
 pub mod valfam;
 pub mod memfam;
 pub mod ench;
@@ -28,11 +32,15 @@ pub fn run(ctx: &Ctx) -> i32 {
         "C02" => c02::run(ctx),
         "C03" => c03::run(ctx),
         "C04" => c04::run(ctx),
+        "C11" => c11::run(ctx),
         "C12" => c12::run(ctx),
+        "C13" => c13::run(ctx),
         "C14" => c14::run(ctx),
         "C15" => c15::run(ctx),
         "C16" => c16::run(ctx),
         "C18" => c18::run(ctx),
+        "C19" => c19::run(ctx),
+        "C20" => c20::run(ctx),
         "C05" => c05::run(ctx),
         "C06" => c06::run(ctx),
         "C07" => c07::run(ctx),
@@ -69,11 +77,15 @@ pub fn replay(path: &str) -> i32 {
         "C02" => c02::replay(&case),
         "C03" => c03::replay(&case),
         "C04" => c04::replay(&case),
+        "C11" => c11::replay(&case),
         "C12" => c12::replay(&case),
+        "C13" => c13::replay(&case),
         "C14" => c14::replay(&case),
         "C15" => c15::replay(&case),
         "C16" => c16::replay(&case),
         "C18" => c18::replay(&case),
+        "C19" => c19::replay(&case),
+        "C20" => c20::replay(&case),
         "C05" => c05::replay(&case),
         "C06" => c06::replay(&case),
         "C07" => c07::replay(&case),
